@@ -379,3 +379,41 @@ Definition M_insert_blocks (t : tb) (key : Z) (ins : tb) : res tb :=
   end.
 
 End BlocksUpdate.
+
+(* ============ TypeBlocks._assign_from_bloc_by_unit (type_blocks.py: 2-D Boolean selector, element / array value) ============
+   One pass over the blocks; `masks` holds one Boolean column (down the rows) per frame column and is consumed block
+   by block.  A block without any True comes out as it is; otherwise THE WHOLE BLOCK is cast to `newdt` of its dtype
+   and every column gets its addressed cells written (`cells j m old`: value column j at the rows where m is True). *)
+Section BlocUnit.
+Context {A : Type}.
+Variable newdt : dtype -> dtype.
+Variable cells : Z -> list bool -> list A -> list A.
+
+Definition any_true (ms : list (list bool)) : bool := existsb (existsb (fun b : bool => b)) ms.
+
+Fixpoint cells_zip (j : Z) (ms : list (list bool)) (cs : list (list A)) : list (list A) :=
+  match ms, cs with
+  | m :: ms', c :: cs' => cells j m c :: cells_zip (j + 1) ms' cs'
+  | _, _ => []
+  end.
+
+Fixpoint bloc_walk (j : Z) (t : tb A) (masks : list (list bool)) : tb A :=
+  match t with
+  | [] => []
+  | b :: r =>
+      let w := length (b_cols b) in
+      let ms := firstn w masks in
+      (if any_true ms then mk_block (newdt (b_dtype b)) (b_1d b) (cells_zip j ms (b_cols b)) else b)
+      :: bloc_walk (j + Z.of_nat w) r (skipn w masks)
+  end.
+
+(* SPECIFICATION of the cells: column by column, no blocks in sight *)
+Definition S_bloc_cells (masks : list (list bool)) (cols : list (list A)) : list (list A) := cells_zip 0 masks cols.
+
+(* SPECIFICATION of the dtypes as the property demands them: a column changes dtype only if one of ITS cells is addressed *)
+Fixpoint S_bloc_dtypes (masks : list (list bool)) (dts : list dtype) : list dtype :=
+  match masks, dts with
+  | m :: ms', d :: ds' => (if existsb (fun b : bool => b) m then newdt d else d) :: S_bloc_dtypes ms' ds'
+  | _, _ => []
+  end.
+End BlocUnit.
